@@ -368,26 +368,27 @@ def _oracle_step(style, ref, op, outcome, cssnames):
         style.valid
     except AttributeError as e:
         return "reporting method crashed: %s" % e
-    for raw, (lit, nok, nn) in DIGEST.items():
-        if not nok or not _canonical(raw):
+    for sp, (lit, nok, nn) in DIGEST.items():
+        if not nok or not _canonical(sp):
             continue
         e = ref.effective(nn)
-        if style.getPropertyValue(raw) != (e[3] if e else ""):
-            return "getPropertyValue(%r) = %r, effective entry %r" % (raw, style.getPropertyValue(raw), e)
-        if style.getPropertyPriority(raw) != ("important" if e and e[4] else ""):
-            return "getPropertyPriority(%r) = %r, effective entry %r" % (raw, style.getPropertyPriority(raw), e)
-        if (raw in style) != (nn in keys):
-            return "%r in style = %r, keys %r" % (raw, raw in style, keys)
-        if not same(style.getProperties(raw), [e] if e else []):
-            return "getProperties(%r) is not [effective entry]" % raw
-        if not same(style.getProperties(raw, all=True), [x for x in ref.props() if x[2] == nn]):
-            return "getProperties(%r, all=True) is not the list of entries of that name" % raw
+        if style.getPropertyValue(sp) != (e[3] if e else ""):
+            return "getPropertyValue(%r) = %r, effective entry %r" % (sp, style.getPropertyValue(sp), e)
+        if style.getPropertyPriority(sp) != ("important" if e and e[4] else ""):
+            return "getPropertyPriority(%r) = %r, effective entry %r" % (sp, style.getPropertyPriority(sp), e)
+        if (sp in style) != (nn in keys):
+            return "%r in style = %r, keys %r" % (sp, sp in style, keys)
+        if not same(style.getProperties(sp), [e] if e else []):
+            return "getProperties(%r) is not [effective entry]" % sp
+        if not same(style.getProperties(sp, all=True), [x for x in ref.props() if x[2] == nn]):
+            return "getProperties(%r, all=True) is not the list of entries of that name" % sp
     for dom, c in cssnames.items():
         if c in ("color", "top", "left"):
             e = ref.effective(c)
             if getattr(style, dom) != (e[3] if e else ""):
                 return "attribute %s is not an alias of getPropertyValue(%r)" % (dom, c)
-    if k in ("sa", "da") and raw is not None:
+    if k in ("sa", "da") and cssnames.get(op[1] if k == "da" else op[2]) is not None:
+        raw = cssnames[op[1] if k == "da" else op[2]]
         e = ref.effective(digest(raw)[2])
         if getattr(style, op[1] if k == "da" else op[2]) != (e[3] if e else ""):
             return "attribute %s is not an alias of getPropertyValue(%r)" % (op[1] if k == "da" else op[2], raw)
